@@ -73,15 +73,36 @@ pub fn generic(seed: u64, thorough: bool, out: &mut Out) {
         for _ in 0..(if thorough { 6 } else { 1 }) { let r = rand_poly(&mut p, lo, hi); ev_ntt(out, &format!("{}: random", name), &r); }
     }
     // inverse transform on the shapes its callers supply: canonical T_q elements, single Montgomery
-    // products (|x| < q) and unreduced sums of up to 9 of them
+    // products (|x| < q) and unreduced sums of up to l + 1 = 8 of them
     for i in (0..256usize).step_by(if thorough { 1 } else { 16 }) { let mut e = [0i32; 256]; e[i] = 1; ev_inv(out, &format!("basis e_{}", i), &e); }
     ev_inv(out, "all q-1", &[Q - 1; 256]);
     ev_inv(out, "all -(q-1)", &[-(Q - 1); 256]);
-    for terms in [1i32, 5, 8, 9] {
+    for terms in [1i32, 5, 8] {
         ev_inv(out, &format!("all +{}(q-1)", terms), &[terms * (Q - 1); 256]);
         ev_inv(out, &format!("alternating +-{}(q-1)", terms), &core::array::from_fn(|n| if n % 2 == 0 { terms * (Q - 1) } else { -terms * (Q - 1) }));
         for _ in 0..(if thorough { 4 } else { 1 }) { let r = rand_poly(&mut p, -terms * (Q - 1), terms * (Q - 1)); ev_inv(out, &format!("random within {} products", terms), &r); }
     }
+    // witness search for the copy-in of the inverse transform: uniform and alternating vectors at values just
+    // around multiples of 2^23 and of q, inside the range its callers supply (at most l + 1 = 8 accumulated
+    // products, |x| <= 8(q-1)).  After 8 doubling layers slot 0 holds 256 x (reduced value), so ANY copy-in
+    // reduction that can leave |value| >= 2^23 overflows on one of these.  Only panics and a sample are recorded.
+    let lim = 8 * (Q as i64 - 1);
+    let mut grid: Vec<i64> = vec![];
+    for k in -9i64..=9 { for d in [0i64, 1, 2, 4095, 4096, 8190, 8191, 8192, 16383, 16384, 16385] { for base in [k << 23, k * Q as i64] { grid.push(base - d); grid.push(base + d); } } }
+    grid.retain(|v| v.abs() <= lim);
+    grid.sort(); grid.dedup();
+    let mut nprobe = 0usize;
+    for (gi, v) in grid.iter().enumerate() {
+        let v = *v as i32;
+        for (pi, pat) in [[v; 256], core::array::from_fn(|n| if n % 2 == 0 { v } else { -v })].iter().enumerate() {
+            nprobe += 1;
+            match guarded(|| vh::inv_ntt::<1>(&[*pat])[0]) {
+                Ok(o) => { if (gi * 2 + pi) % 97 == (seed as usize) % 97 { out.ev(json!({"ev": "InvNtt", "what": format!("copy-in probe, all slots {}{}", if pi == 1 { "+-" } else { "" }, v), "in": jp(pat), "out": jp(&o)})); } }
+                Err((loc, msg)) => out.ev(json!({"ev": "Panic", "call": "inv_ntt", "what": format!("copy-in probe: all slots {}{} (within 8 accumulated products) | {}: {}", if pi == 1 { "+-" } else { "" }, v, loc, msg), "loc": loc, "msg": msg})),
+            }
+        }
+    }
+    out.ev(json!({"ev": "Zeta", "table": jp(&vh::zeta_table_mont()), "probes": nprobe}));
     // full products against the schoolbook definition: challenge-like x secret/public ranges
     let nprod = if thorough { 6 } else { 1 };
     for (name, lo, hi) in ranges {
